@@ -18,6 +18,7 @@ import (
 	"verifharness/drive"
 	"verifharness/gen"
 	"verifharness/spec"
+	"verifharness/stats"
 )
 
 // C16 — vector search ignores cache history; indexes live exactly as long as used.
@@ -673,4 +674,32 @@ func TestC16Stress(t *testing.T) { c16stress.Rapid(t) }
 func init() {
 	c16.register()
 	c16stress.register()
+}
+
+// Deterministic history on a clustered index: one filtering-capable handle answers filtered
+// searches whose eligible sets are two different three-quarters of the 1200 documents, in turn.
+func TestC16Fixed(t *testing.T) {
+	col := stats.New("C16", "cache-history")
+	defer col.Write()
+	c := cacheCase{Mmap: true, Batch: &spec.BatchSpec{VecWide: &spec.VecWideSpec{N: 1200, Field: "vec", Dim: 2, Metric: "l2_norm", Opt: "recall", Seed: 7}}}
+	var a, b []uint64
+	for d := uint64(0); d < 1200; d++ {
+		if d < 900 {
+			a = append(a, d)
+		}
+		if d >= 300 {
+			b = append(b, d)
+		}
+	}
+	c.Actions = append(c.Actions, cacheAction{Op: "open", Field: "vec", Filter: true, Except: spec.DropSpec{Nil: true}})
+	for _, q := range [][]float32{{1, 0, 0, 0}, {0, 1, 0, 0}, {-1, 0, 0, 0}, {0, -1, 0, 0}} {
+		for _, el := range [][]uint64{a, b, a} {
+			c.Actions = append(c.Actions, cacheAction{Op: "search", Handle: 0, Q: q, K: 50, Eligible: el})
+		}
+	}
+	c.Actions = append(c.Actions, cacheAction{Op: "close", Handle: 0})
+	sc := c
+	sc.Actions = sc.Actions[:1]
+	col.CaseHash(stats.HashJSON("fixed-clustered-alternating-filters"), true, []string{"clustered", "alternating-eligible-sets-on-one-handle"}, func() any { return sampleOf(sc) })
+	reportBig(t, col, "C16", "cache-history", c, safeRun(c16, c))
 }
